@@ -4,7 +4,9 @@
 (*                                                                         *)
 (* One ndjson line per history:                                            *)
 (*   [tid, par: <<<<parents>>..>>, ts: <<..>>, rank: <<..>>, q: <<query>>, *)
-(*    cg: <<commits covered by the repository's commit-graph file>>]       *)
+(*    cg: <<commits covered by the repository's commit-graph file>>,       *)
+(*    opar: parents as written in the commit objects, cut: <<per commit>>] *)
+(* par is what the repository presents = View(opar, cut), see below.       *)
 (* cg is only checked to be a legal extent (down-closed); no clause looks  *)
 (* at it: the answers must not depend on the accelerator.                  *)
 (* A query records what was asked of the real dulwich function and what it *)
@@ -179,13 +181,24 @@ Judge(par, ts, rank, A, q) ==
                   IF q.m = 1 THEN (IF mo = q.r THEN 1 ELSE 0) ELSE 2 >>
 
 \* ---------------------------------------------------------------- per history
+\* The history the questions are about is the one the repository presents: the parents written in
+\* the commit objects (opar) except where the repository was told otherwise -- cut[c] = <<>>: as
+\* written; <<0>>: c is a shallow boundary (no parents); <<1, p..>>: graft point with parents p..
+\* A commit-graph file describes the OBJECTS (it may have been written before the cut): its extent
+\* is down-closed there, and no clause looks at it.
+View(opar, cut) == [c \in DOMAIN opar |-> IF cut[c] = <<>> THEN opar[c] ELSE SeqSet(Tail(cut[c]))]
+
 JudgeAll(T) ==
-    LET n   == Len(T.par)
-        par == [c \in 1..n |-> SeqSet(T.par[c])]
-        A   == Anc(par)
+    LET n    == Len(T.opar)
+        opar == [c \in 1..n |-> SeqSet(T.opar[c])]
+        par  == View(opar, T.cut)
+        A    == Anc(par)
         V   == [k \in 1..Len(T.q) |-> Judge(par, T.ts, T.rank, A, T.q[k])]
         bad == {k \in 1..Len(T.q) : V[k][1] # "ok" \/ V[k][4] = 0}
-    IN  /\ Assert(DownClosed(par, SeqSet(T.cg)), <<"commit-graph extent is not down-closed", T.tid>>)
+    IN  /\ Assert(DownClosed(opar, SeqSet(T.cg)), <<"commit-graph extent is not down-closed", T.tid>>)
+        /\ Assert(Len(T.par) = n /\ \A c \in 1..n : SeqSet(T.par[c]) = par[c],
+                  <<"the harness's idea of the repository's view is not View(opar, cut)", T.tid>>)
+        /\ Assert(\A c \in 1..n : par[c] \subseteq 1..(c - 1), <<"view is not canonical", T.tid>>)
         /\ \A k \in bad : PrintT(<<"V", T.tid, k, V[k][1], V[k][2], V[k][3], V[k][4]>>)
         /\ PrintT(<<"T", T.tid, Len(T.q), Cardinality(bad)>>)
 
